@@ -280,17 +280,25 @@ def run(tier, seed):
             problems.append("timed out")
         if failed != m["expect_fail"]:
             problems.append("exit status %s, expected %s" % (r["rc"], "non-zero" if m["expect_fail"] else "0"))
-        if r["result"] is not None and m["tag"]["site"] not in ("directory", "upload"):
+        flag_only = False
+        if r["result"] is not None and m["tag"]["site"] != "directory":
             if bool(r["result"].get("Foul")) != failed:
+                flag_only = not problems and m["tag"]["site"] == "upload"
                 problems.append("result.js Foul=%s but exit status %s" % (r["result"].get("Foul"), r["rc"]))
             if failed and not r["result"].get("Error"):
                 problems.append("failed without an Error in result.js")
         if problems:
+            # a failed upload that is reported by the exit status but not in result.js (written before the upload)
+            tag = {"site": "upload", "foul_flag": "not recorded"} if flag_only else m["tag"]
             ofail.append({"what": m["what"], "config": m["config"], "args": m["args"], "problems": problems, "rc": r["rc"],
-                          "stderr": (r["stderr"] or "")[-1500:], "stdout": (r["stdout"] or "")[-1500:], "tag": m["tag"]})
+                          "stderr": (r["stderr"] or "")[-1500:], "stdout": (r["stdout"] or "")[-1500:], "tag": tag})
     rep.sample({"end_to_end": meta[0]["what"], "rc": results[0]["rc"], "Foul": (results[0]["result"] or {}).get("Foul")})
     rep.obligation("K-C03a: parser + real collector loop vs model (verdict, tallies, early exit) on %d cases" % n_a, "K", not kdis, json.dumps(kdis[:2], default=str)[:1800])
-    rep.obligation("O-C03: last-clause-wins on the real parser; exit status / Foul of the real binary on %d plays = specification" % len(plays), "O", not ofail, json.dumps(ofail[:2], default=str)[:1800])
+    known_o = [f for f in ofail if rep.match_known(f["tag"]) is not None]
+    new_o = [f for f in ofail if rep.match_known(f["tag"]) is None]
+    rep.obligation("O-C03: last-clause-wins on the real parser; exit status / Foul of the real binary on %d plays = specification%s" % (
+                       len(plays), "; the Foul flag of result.js after a failed upload excepted (known finding, fails as recorded)" if known_o else ""),
+                   "O", not new_o, json.dumps(new_o[:2], default=str)[:1800])
     if ofail:
         seen = set()
         for f in ofail:
